@@ -245,6 +245,9 @@ def mutate (d : DState) (p : Pending) (pre : Pre) (t : Tx) (cls : String) (args 
   | "xdecl", [] => if t.cx == [] then none else some { t with cx := [] }
   | "evt", [] => if t.ev == [] then none else some { t with ev := [999] }
   | "evdrop", [] => if t.ev == [] then none else some { t with ev := [] }
+  -- no requests, no reads, only the transient entries of the write set: re-executing nothing produces nothing
+  | "noreq", [] => if t.cx == [] && t.ev == [] then none
+                   else some { t with prog := fun _ => none, limit := 0, kin := [], kout := [] }
   | "same", [] => some t
   | _, _ => none
 
